@@ -205,7 +205,7 @@ theorem C12_builder_error_kept (w : World) (fuel : Nat) (ph : Bool) (st : BState
     (st' : BState) (ds' : List Diag) (hd : drain w fuel ph st ds = .done st' ds')
     (he : hasErrors ds = true) : hasErrors ds' = true := by
   obtain ⟨x, rfl⟩ := drain_diags_prefix w fuel ph st ds st' ds' hd
-  rw [hasErrors_append, he]; rfl
+  rw [hasErrors_appendL, he]; rfl
 
 /-- **C12_builder_errors_are_reported.** The one-step facts together: a failed registry
 resolution, a failed installation and an escaping relative dependency each append an error
@@ -244,16 +244,16 @@ theorem C12_builder_errors_are_reported (w : World) :
 
 /-! ## non-vacuity
 
-On `exWorld` / `exOps` (Lemmas/BuilderLog): the first operation succeeds with a forwarded warning,
+On `exWorldL` / `exOpsL` (Lemmas/BuilderLog): the first operation succeeds with a forwarded warning,
 the second asks for a registry version nobody offers and gets a kind-0 error, the third is
 refused. -/
 
-example : (runOps exWorld 40 BState.init exOps).2.map OpResult.isRefused = [false, false, true] := by
+example : (runOps exWorldL 40 BState.init exOpsL).2.map OpResult.isRefused = [false, false, true] := by
   decide
-example : (runOps exWorld 40 BState.init exOps).1.poisoned = true := by decide
-example : (runOps exWorld 40 BState.init (exOps.take 1)).1.poisoned = false := by decide
+example : (runOps exWorldL 40 BState.init exOpsL).1.poisoned = true := by decide
+example : (runOps exWorldL 40 BState.init (exOpsL.take 1)).1.poisoned = false := by decide
 
-example : (runOps exWorld 40 BState.init exOps).2.map OpResult.diagsOf =
+example : (runOps exWorldL 40 BState.init exOpsL).2.map OpResult.diagsOf =
     [some [{ isError := false, kind := 3, summary := "careful".toList, file := "main.tf".toList,
              rewritten := true, pkg := exPkgA }],
      some [{ isError := true, kind := 0, summary := [], file := [], rewritten := false,
@@ -263,20 +263,20 @@ example : (runOps exWorld 40 BState.init exOps).2.map OpResult.diagsOf =
 
 /-- the hypotheses of `C12_builder_poison_runOps` hold with `pre` = the first operation -/
 example :
-    ((applyOp exWorld 40 (runOps exWorld 40 BState.init (exOps.take 1)).1
+    ((applyOp exWorldL 40 (runOps exWorldL 40 BState.init (exOpsL.take 1)).1
         (.addRegistry ⟨exReg, []⟩ ["3.0.0".toList] 0)).2.diagsOf.map hasErrors) = some true := by
   decide
 
 /-- an escaping relative dependency: `B//deep` depends on `../..` -/
 example :
-    (runOps exWorld 40 BState.init [.addRemote ⟨exPkgB, "deep".toList⟩ 0,
+    (runOps exWorldL 40 BState.init [.addRemote ⟨exPkgB, "deep".toList⟩ 0,
         .addRemote ⟨exPkgA, []⟩ 0]).2.map OpResult.diagsOf =
       [some [escapeDiag ⟨exPkgB, "deep".toList⟩], none] := by
   decide
 
 /-- a package that cannot be fetched: kind 1 -/
 example :
-    (runOps exWorld 40 BState.init [.addRemote ⟨"C".toList, []⟩ 0]).2.map OpResult.diagsOf =
+    (runOps exWorldL 40 BState.init [.addRemote ⟨"C".toList, []⟩ 0]).2.map OpResult.diagsOf =
       [some [{ isError := true, kind := 1, summary := [], file := [], rewritten := false,
                pkg := "C".toList }]] := by
   decide
